@@ -12,6 +12,8 @@ import (
 	"sync/atomic"
 	"time"
 
+	"golang.org/x/sys/unix"
+
 	"github.com/panjf2000/gnet/v2/pkg/netpoll"
 	"github.com/panjf2000/gnet/v2/pkg/queue"
 	"github.com/panjf2000/gnet/v2/pkg/vsys"
@@ -25,6 +27,29 @@ type taskRec struct {
 	runs  atomic.Int32
 	order int64 // execution order stamp
 	gid   int64
+}
+
+// ---- I/O load: descriptors of the harness registered with the poller. One of them is a gate: its callback holds
+// the loop, so that everything made ready meanwhile (other descriptors and the wake-up eventfd) is reported by ONE
+// epoll_wait - which lets the harness produce batches of exactly 'event list size' events.
+var (
+	ioFDs       []int
+	ioPAs       []*netpoll.PollAttachment
+	gateFD      = -1
+	gateCh      = make(chan struct{})
+	gateEntered = make(chan struct{}, 1)
+	ioEvents    atomic.Int64
+)
+
+func ioCallback(fd int, _ netpoll.IOEvent, _ netpoll.IOFlags) error {
+	var b [8]byte
+	_, _ = unix.Read(fd, b[:])
+	ioEvents.Add(1)
+	if fd == gateFD {
+		gateEntered <- struct{}{}
+		<-gateCh
+	}
+	return nil
 }
 
 func main() {
@@ -43,6 +68,21 @@ func main() {
 	if err != nil {
 		panic(err)
 	}
+	for i := 0; i < 140; i++ {
+		fd, err := unix.Eventfd(0, unix.EFD_NONBLOCK|unix.EFD_CLOEXEC)
+		if err != nil {
+			panic(err)
+		}
+		pa := &netpoll.PollAttachment{FD: fd, Callback: ioCallback}
+		ioPAs = append(ioPAs, pa) // the poll_opt poller keeps only an untyped pointer to it inside the kernel's event data
+		if err := p.AddRead(pa, false); err != nil {
+			panic(err)
+		}
+		ioFDs = append(ioFDs, fd)
+	}
+	gateFD = ioFDs[0]
+	one := []byte{1, 0, 0, 0, 0, 0, 0, 0}
+	ioBatches := int64(0)
 	pollDone := make(chan error, 1)
 	var loopGid atomic.Int64
 	go func() {
@@ -96,6 +136,18 @@ func main() {
 		efdBefore = vsys.EfdWrites.Load()
 		if !burst {
 			vsys.BeginIter()
+		}
+		// every 16th iteration: the requests arrive together with M ready descriptors in one epoll_wait batch, M around
+		// the sizes the event list takes (32 after quiet rounds, doubling after a full batch)
+		ioM, io0 := 0, ioEvents.Load()
+		if !burst && it%16 == 7 {
+			ioM = r.Pick(5, 30, 31, 31, 32, 33, 62, 63, 64, 126, 127, 128)
+			_, _ = unix.Write(gateFD, one)
+			<-gateEntered // the loop is inside the gate's callback now
+			for j := 1; j <= ioM; j++ {
+				_, _ = unix.Write(ioFDs[j], one)
+			}
+			ioBatches++
 		}
 		recs := make([][]*taskRec, K)
 		var wg sync.WaitGroup
@@ -160,6 +212,15 @@ func main() {
 			}(k)
 		}
 		wg.Wait()
+		if ioM > 0 {
+			gateCh <- struct{}{} // release the loop: its next epoll_wait reports the eventfd and the M descriptors at once
+			for k := 0; k < 400000 && ioEvents.Load() < io0+int64(ioM)+1; k++ {
+				time.Sleep(5 * time.Microsecond)
+			}
+			if got := ioEvents.Load() - io0; got != int64(ioM)+1 {
+				res.Inconc("iteration %d: %d of %d ready descriptors reported", it, got, ioM+1)
+			}
+		}
 		n := int64(K*per) - rejected.Load()
 		submitted += n
 		// quiescence: wait until everything accepted has run; the watchdog only decides when to look
@@ -244,6 +305,7 @@ func main() {
 		}
 	}
 	res.Obs("burst_iterations_submitted_from_the_loop", inLoopBursts)
+	res.Obs("iterations_with_io_batch_around_event_list_size", ioBatches)
 	res.Eval(int64(iters))
 	finish(res, sigs, idleStarts, busyStarts, bursts, selfWakeIters, pts, submitted)
 }
